@@ -54,6 +54,15 @@ func resolvedInputs(s *hist.Source, t hist.Target) [][2]string {
 			continue
 		}
 		rel := strings.TrimPrefix(p, t.Pkg+"/")
+		excluded := false
+		for _, g := range t.Exclude {
+			if ok, _ := path.Match(g, rel); ok || g == rel {
+				excluded = true
+			}
+		}
+		if excluded {
+			continue
+		}
 		for _, g := range t.Inputs {
 			if ok, _ := path.Match(g, rel); ok || g == rel {
 				out = append(out, [2]string{rel, f.Content})
